@@ -110,7 +110,7 @@ WellFormed(e) ==
       [] OTHER ->
             /\ WellFormed(e.l[1]) /\ WellFormed(e.r[1])
             /\ (e.op = "/" => Eval(e.l[1]) >= 0 /\ Eval(e.r[1]) > 0)
-            /\ (e.op \in {"<<", ">>"} => Eval(e.r[1]) \in 0..6 /\ Eval(e.l[1]) >= 0)
+            /\ (e.op \in {"<<", ">>"} => Eval(e.r[1]) \in 0..6)      \* the shifted value may be negative (>> floors)
             /\ Eval(e.l[1]) \in -100000..100000 /\ Eval(e.r[1]) \in -100000..100000
 
 (* ---- text ------------------------------------------------------------------ *)
